@@ -35,15 +35,16 @@ type VerifRegistry struct {
 	mu     sync.Mutex
 	m      map[string][]byte
 	log    []string
-	fail   map[string]int // "<node>:<kind>" -> number of upcoming operations of that kind to fail
-	leader []int          // leader[n] = node that node n currently believes to be the coordinator
+	leased map[string]bool // keys written with an expiry option (EX/PX/EXAT/PXAT): removed by ExpireLeases
+	fail   map[string]int  // "<node>:<kind>" -> number of upcoming operations of that kind to fail
+	leader []int           // leader[n] = node that node n currently believes to be the coordinator
 	nodes  []*discovery.Node
 }
 
 // VerifNewRegistry creates the registry of a case with n nodes; every node starts
 // believing node 0 is the coordinator.
 func VerifNewRegistry(n int) *VerifRegistry {
-	return &VerifRegistry{m: map[string][]byte{}, fail: map[string]int{}, leader: make([]int, n), nodes: make([]*discovery.Node, n)}
+	return &VerifRegistry{m: map[string][]byte{}, leased: map[string]bool{}, fail: map[string]int{}, leader: make([]int, n), nodes: make([]*discovery.Node, n)}
 }
 
 // FailNext makes the next operation of the given kind (get, put, putnx, del) issued by node fail.
@@ -116,24 +117,58 @@ type verifDMap struct {
 
 func (d *verifDMap) Name() string { return "verif-dmap" }
 
-// verifHasNX applies the option to a fresh PutConfig (its type lives in an olric
-// internal package, so it is reached by reflection) and reads HasNX.
-func verifHasNX(o olric.PutOption) bool {
+// verifPutFlag applies the option to a fresh PutConfig (its type lives in an olric
+// internal package, so it is reached by reflection) and reads the named bool field.
+func verifPutFlag(o olric.PutOption, fields ...string) bool {
 	t := reflect.TypeOf(o)
 	if t.Kind() != reflect.Func || t.NumIn() != 1 || t.In(0).Kind() != reflect.Ptr {
 		return false
 	}
 	cfg := reflect.New(t.In(0).Elem())
 	reflect.ValueOf(o).Call([]reflect.Value{cfg})
-	f := cfg.Elem().FieldByName("HasNX")
-	return f.IsValid() && f.Kind() == reflect.Bool && f.Bool()
+	for _, name := range fields {
+		f := cfg.Elem().FieldByName(name)
+		if f.IsValid() && f.Kind() == reflect.Bool && f.Bool() {
+			return true
+		}
+	}
+	return false
+}
+
+func verifHasNX(o olric.PutOption) bool { return verifPutFlag(o, "HasNX") }
+
+// verifHasExpiry: the record is written with a time to live.
+func verifHasExpiry(o olric.PutOption) bool {
+	return verifPutFlag(o, "HasEX", "HasPX", "HasEXAT", "HasPXAT")
+}
+
+// ExpireLeases lets time pass: every record that was written with an expiry option
+// disappears (its lease ran out). Returns how many records were removed.
+func (r *VerifRegistry) ExpireLeases() int {
+	r.mu.Lock()
+	defer r.mu.Unlock()
+	n := 0
+	for k := range r.leased {
+		if _, ok := r.m[k]; ok {
+			delete(r.m, k)
+			n++
+		}
+		delete(r.leased, k)
+	}
+	if n > 0 {
+		r.log = append(r.log, fmt.Sprintf("expired%d", n))
+	}
+	return n
 }
 
 func (d *verifDMap) Put(_ context.Context, key string, value any, options ...olric.PutOption) error {
-	nx := false
+	nx, ttl := false, false
 	for _, o := range options {
 		if verifHasNX(o) {
 			nx = true
+		}
+		if verifHasExpiry(o) {
+			ttl = true
 		}
 	}
 	b, ok := value.([]byte)
@@ -153,7 +188,13 @@ func (d *verifDMap) Put(_ context.Context, key string, value any, options ...olr
 			return olric.ErrKeyFound
 		}
 		r.m[key] = append([]byte(nil), b...)
-		r.log = append(r.log, fmt.Sprintf("%dx", d.node))
+		if ttl {
+			r.leased[key] = true
+			r.log = append(r.log, fmt.Sprintf("%dx~", d.node)) // a claim that can expire
+		} else {
+			delete(r.leased, key)
+			r.log = append(r.log, fmt.Sprintf("%dx", d.node))
+		}
 		return nil
 	}
 	if r.injected(d.node, "put") {
@@ -161,7 +202,13 @@ func (d *verifDMap) Put(_ context.Context, key string, value any, options ...olr
 		return ErrVerifInjected
 	}
 	r.m[key] = append([]byte(nil), b...)
-	r.log = append(r.log, fmt.Sprintf("%dp", d.node))
+	if ttl {
+		r.leased[key] = true
+		r.log = append(r.log, fmt.Sprintf("%dp~", d.node)) // a record that can expire
+	} else {
+		delete(r.leased, key)
+		r.log = append(r.log, fmt.Sprintf("%dp", d.node))
+	}
 	return nil
 }
 
@@ -279,7 +326,7 @@ func VerifNewCluster(reg *VerifRegistry, node int, dnode *discovery.Node) Cluste
 }
 
 // VerifGrainKey / VerifActorKey: the namespaced keys cluster.go composes.
-func VerifGrainKey(id string) string { return composeKey(namespaceGrains, id) }
+func VerifGrainKey(id string) string   { return composeKey(namespaceGrains, id) }
 func VerifActorKey(name string) string { return composeKey(namespaceActors, name) }
 
 // VerifDecodeGrainOwner decodes a stored grain record into "host:port".
